@@ -896,3 +896,136 @@ Proof.
   { unfold s'. unfold read_rows, write_rows. cbn [f_shape r_shape]. apply rewrite_shapes. exact SF. }
   rewrite D, B, RF, G, T, A, X, TR, LS, LI, SH. reflexivity.
 Qed.
+
+(* ================================================================================================ *)
+(* J. the rasters survive through [DEFINITIONS]: structural hypotheses instead of hypotheses on s'   *)
+Lemma key_leb_refl a : key_leb a a = true.
+Proof. induction a as [|x a IH]; [reflexivity|]. cbn. rewrite Z.ltb_irrefl. exact IH. Qed.
+
+Lemma key_leb_antisym a : forall b, key_leb a b = true -> key_leb b a = true -> a = b.
+Proof.
+  induction a as [|x a IH]; intros [|y b] H1 H2; cbn in *; try congruence.
+  destruct (x <? y)%Z eqn:E1; destruct (y <? x)%Z eqn:E2; try discriminate.
+  - apply Z.ltb_lt in E1. apply Z.ltb_lt in E2. lia.
+  - apply Z.ltb_ge in E1. apply Z.ltb_ge in E2. assert (x = y) by lia. subst. f_equal. apply IH; assumption.
+Qed.
+
+Lemma keyZ_eqb_eq a b : keyZ_eqb a b = true <-> a = b.
+Proof.
+  unfold keyZ_eqb. split.
+  - intro H. apply andb_true_iff in H. destruct H. apply key_leb_antisym; assumption.
+  - intros ->. rewrite key_leb_refl. reflexivity.
+Qed.
+
+Definition dkeys {V} (l : list (list Z * V)) : list (list Z) := map fst l.
+Definition single (v : list Q) : option Q := match v with [x] => Some x | _ => None end.
+
+Lemma def_lookup_cons k' v r k :
+  def_lookup ((k', v) :: r) k = if keyZ_eqb k' k then single v else def_lookup r k.
+Proof. reflexivity. Qed.
+
+Lemma in_dkeys_ins {V} (x : list Z * V) l k : In k (dkeys (ins_def x l)) <-> k = fst x \/ In k (dkeys l).
+Proof.
+  induction l as [|y r IH]; cbn [ins_def dkeys map In].
+  - intuition.
+  - destruct (key_leb (fst x) (fst y)); cbn [map In].
+    + intuition.
+    + fold (dkeys (ins_def x r)). rewrite IH. fold (dkeys r). intuition.
+Qed.
+
+Lemma def_lookup_ins x l k : ~ In (fst x) (dkeys l) ->
+  def_lookup (ins_def x l) k = if keyZ_eqb (fst x) k then single (snd x) else def_lookup l k.
+Proof.
+  induction l as [|[ky vy] r IH]; intro NI; destruct x as [kx vx]; cbn [ins_def fst snd] in *.
+  - reflexivity.
+  - destruct (key_leb kx ky); [reflexivity|].
+    rewrite def_lookup_cons, IH by (intro H; apply NI; right; exact H). rewrite def_lookup_cons. cbn [fst snd].
+    destruct (keyZ_eqb ky k) eqn:E1; destruct (keyZ_eqb kx k) eqn:E2; try reflexivity.
+    apply keyZ_eqb_eq in E1. apply keyZ_eqb_eq in E2. subst. exfalso. apply NI. left. reflexivity.
+Qed.
+
+Lemma in_dkeys_sort {V} (l : list (list Z * V)) k : In k (dkeys (sort_defs l)) <-> In k (dkeys l).
+Proof.
+  induction l as [|x l IH]; [reflexivity|]. cbn [sort_defs fold_right]. fold (sort_defs l).
+  rewrite in_dkeys_ins, IH. cbn [dkeys map In]. split; intros [H|H]; auto.
+Qed.
+
+Lemma def_lookup_sort l k : NoDup (dkeys l) -> def_lookup (sort_defs l) k = def_lookup l k.
+Proof.
+  induction l as [|[kx vx] l IH]; intro ND; [reflexivity|].
+  cbn [dkeys map] in ND. inversion ND as [|? ? NI ND']; subst.
+  cbn [sort_defs fold_right]. fold (sort_defs l).
+  rewrite def_lookup_ins by (cbn [fst]; rewrite in_dkeys_sort; exact NI).
+  rewrite def_lookup_cons. cbn [fst snd]. rewrite IH by exact ND'. reflexivity.
+Qed.
+
+Lemma def_lookup_map f l k :
+  def_lookup (map (fun kv => (fst kv, map f (snd kv))) l) k = option_map f (def_lookup l k).
+Proof.
+  induction l as [|[kx vx] l IH]; [reflexivity|]. cbn [map fst snd]. rewrite !def_lookup_cons, IH.
+  destruct (keyZ_eqb kx k); [|reflexivity]. destruct vx as [|a [|b r]]; reflexivity.
+Qed.
+
+Lemma def_lookup_write_defs d k : NoDup (dkeys d) ->
+  def_lookup (write_defs d) k = option_map (fmt_sig def_fmt) (def_lookup d k).
+Proof. intro ND. unfold write_defs. rewrite def_lookup_map, def_lookup_sort by exact ND. reflexivity. Qed.
+
+(* a sequence whose raster attributes are the values of its raster definitions (Sequence.__init__ sets both from
+   the system) and print exactly with 9 digits *)
+Record rasters_in_defs (s : fstate) : Prop := mkRID {
+  rid_nodup : NoDup (dkeys (f_defs s));
+  rid_block : exists r, def_lookup (f_defs s) key_block_raster = Some r /\ r == f_braster s /\ fmt_sig def_fmt r == r;
+  rid_rf : exists r, def_lookup (f_defs s) key_rf_raster = Some r /\ r == f_rfraster s /\ fmt_sig def_fmt r == r
+}.
+
+Lemma rasters_kept sy s : rasters_in_defs s ->
+  f_braster (read_rows sy (write_rows s)) == f_braster s /\ f_rfraster (read_rows sy (write_rows s)) == f_rfraster s.
+Proof.
+  intros [ND [rb [LB [EB PB]]] [rr [LR [ER PR]]]].
+  unfold read_rows, write_rows. cbn [f_braster f_rfraster r_defs]. unfold raster_from.
+  change def_sets_block_raster with true. change def_sets_rf_raster with true.
+  rewrite !def_lookup_write_defs by exact ND. rewrite LB, LR. cbn [option_map].
+  split; [rewrite PB; exact EB|rewrite PR; exact ER].
+Qed.
+
+(* RF delays that print exactly (below 1 s on a 1 us raster): the printed rows are on the RF raster *)
+Fixpoint row_exact (rfr : Q) (cs : list col) (r : list Q) : Prop :=
+  match cs, r with
+  | c :: cs', x :: r' =>
+    (is_raster_col c = true ->
+       fmt_sig (c_fmt c) (inject_Z (rnd_he (x / rfr)) * rfr * c_mult c) == inject_Z (rnd_he (x / rfr)) * rfr * c_mult c)
+    /\ row_exact rfr cs' r'
+  | _, _ => True
+  end.
+
+Lemma row_exact_on_raster rfr cs : cols_ok cs = true -> ~ rfr == 0 -> forall r,
+  row_exact rfr cs r -> row_on_raster rfr cs (write_row rfr cs r).
+Proof.
+  induction cs as [|c cs IH]; intros OK NZ r H; [exact I|].
+  cbn [cols_ok forallb] in OK. apply andb_true_iff in OK. destruct OK as [OC OR].
+  destruct r as [|x r]; [exact I|]. cbn [write_row row_on_raster row_exact] in *. destruct H as [H1 H2].
+  split; [|apply IH; assumption].
+  destruct (c_pre c =? 2)%Z eqn:P2; [|unfold on_raster; rewrite P2; exact I].
+  assert (R : is_raster_col c = true).
+  { unfold col_ok, is_int_col, is_sig_col in OC. rewrite P2 in OC. cbn [negb] in OC.
+    rewrite !andb_false_r in OC. cbn [orb andb] in OC. exact OC. }
+  apply on_raster_exact; [exact R|exact NZ|apply H1; exact R].
+Qed.
+
+Definition rf_delays_exact (s : fstate) : Prop := Forall (row_exact (f_rfraster s) sec_rf) (f_rf s).
+
+Lemma rf_rows_on_raster s : ~ f_rfraster s == 0 -> rf_delays_exact s ->
+  Forall (row_on_raster (f_rfraster s) sec_rf) (map (write_row (f_rfraster s) sec_rf) (f_rf s)).
+Proof.
+  intros NZ H. unfold rf_delays_exact in H. induction H as [|r l Hr _ IH]; cbn [map]; constructor; [|exact IH].
+  apply row_exact_on_raster; [apply section_cols_ok; unfold all_sections; cbn [In]; tauto|exact NZ|exact Hr].
+Qed.
+
+(* C02, whole file, hypotheses on the INPUT state only *)
+Theorem write_read_write sy s :
+  rasters_in_defs s -> ~ f_braster s == 0 -> ~ f_rfraster s == 0 -> rf_delays_exact s -> adc_rows_full s ->
+  write_rows (read_rows sy (write_rows s)) = write_rows s.
+Proof.
+  intros RID NB NR RD AF. destruct (rasters_kept sy s RID) as [EB ER].
+  apply write_read_write_partial; try assumption. apply rf_rows_on_raster; assumption.
+Qed.
